@@ -690,6 +690,64 @@ def correspondence(ctx):
         run_cases(ctx, env, lists[i:i + 500])
     validate_sat(ctx, env, filters_of(lists))
     equivalences(ctx, env, gen, n_eq)
+    composite_overrides(ctx, env, 40 if thorough else 6)
+
+
+# keys the shipped overwrite configuration (sets-overwrite.cfg via ~/avocado_overwrite_tests.cfg) sets or post-processes,
+# ordinary test parameters, and a "personal default" appended to the user's overwrite file for the run
+OVERRIDE_KEYS = [("control_file", ["manual.control", "step_3.control"]), ("original_test_data_path", ["/srv/mydata/", "data/"]),
+                 ("additional_deployment_dir", ["/srv/deploy", "deploy"]), ("other_tests_dirs", ["/srv/tests", "more"]),
+                 ("kill_vm", ["yes", "no"]), ("take_regular_screendumps", ["yes", "no"]), ("test_timeout", ["12", "3600"]),
+                 ("personal_default", ["mine", "run1"])]
+COMPOSITE_SELECTIONS = ["only=normal..tutorial1", "only=leaves..tutorial2..files", "only=minimal..tutorial2..names",
+                        "only=leaves..tutorial_gui..client_noop", "only=nonleaves..connect"]
+
+
+def composite_overrides(ctx, env, n, arglists=None):
+    """`K=V overrides that parameter in EVERY parsed test`: not only in the flat nodes a listing shows but in the composite
+    nodes that are run and in every setup test parsed for them (real parse_object_trees)."""
+    rng = ctx.rng
+    ovr = os.path.join(os.environ["HOME"], "avocado_overwrite_tests.cfg")
+    marker = "\n# personal defaults of the user (added by the check)\npersonal_default = fromfile\ntake_regular_screendumps = no\n"
+    if os.path.exists(ovr) and marker not in open(ovr).read():
+        with open(ovr, "a") as fh:
+            fh.write(marker)
+    if arglists is None:
+        arglists = []
+        for i in range(n):
+            picks = rng.sample(OVERRIDE_KEYS, rng.randint(1, 3))
+            nets = rng.choice(["nets=net1", "nets=net1", "nets=net1,net2"])
+            args = [rng.choice(COMPOSITE_SELECTIONS), nets, "only_vm1=CentOS", "only_vm2=Win10", "only_vm3=Ubuntu"] + \
+                   [f"{k}={rng.choice(vs)}" for k, vs in picks]
+            rng.shuffle(args)
+            arglists.append(args)
+    for args in arglists:
+        kvs = [tuple(a.split("=", 1)) for a in args if a.split("=", 1)[0] in dict(OVERRIDE_KEYS)]
+        case = {"args": args, "kind": "composite-overrides"}
+        status, config = run_impl(env, args)
+        ctx.count("composite." + status)
+        if status != "ok":
+            ctx.violate("composite-selection-rejected", f"{args} rejected: {config}", case)
+            continue
+        try:
+            graph = env["TestGraph"].parse_object_trees(restriction=config["tests_str"], object_restrs=config["vm_strs"],
+                                                        params=config["param_dict"])
+        except Exception as e:      # noqa
+            ctx.violate("composite-parse-raised", f"{args}: {type(e).__name__}: {str(e)[:200]}", case)
+            continue
+        nodes = [nd for nd in graph.nodes if not nd.is_shared_root()]
+        ctx.case({"kind": "composite-overrides", "args": args, "nodes": len(nodes)}, nontrivial=len(nodes) > 2)
+        ctx.count("composite.nodes", len(nodes))
+        for nd in nodes:
+            for k, v in kvs:
+                if nd.params.get(k) != v.replace(",", " "):
+                    ctx.violate("override-not-in-every-parsed-test",
+                                f"{k}={v!r} given on the command line but the {'flat' if nd.is_flat() else 'composite'} test "
+                                f"{nd.params['shortname']} has {k}={nd.params.get(k)!r}", case)
+                    break
+            else:
+                continue
+            break
 
 
 def search(ctx, reason):
@@ -723,6 +781,8 @@ def replay(ctx, payload):
     c = payload["case"]
     if c.get("kind") == "cmd":
         run_cases(ctx, env, [list(c["args"])], big_budget=200)
+    elif c.get("kind") == "composite-overrides":
+        composite_overrides(ctx, env, 0, [list(c["args"])])
     elif c.get("kind") == "equiv":
         run_cases(ctx, env, [list(l) for l in c["lists"]], big_budget=200)
     elif c.get("kind") == "sat":
